@@ -26,6 +26,9 @@ ALL = {
     'C02': 'p_c02',
     'C03': 'p_c03',
     'C04': 'p_c04',
+    'C05': 'p_c05',
+    'C07': 'p_c07',
+    'C09': 'p_c09',
 }
 
 if __name__ == '__main__':
